@@ -424,7 +424,9 @@ pub fn parse_choice_text(input: &str) -> Result<ParsedChoiceText, CompilerError>
         let (start_text, start_tags) = split_text_and_tags(&display)?;
         let selected = if suffix.is_empty() {
             Some(display.clone())
-        } else if suffix.starts_with(|c: char| c.is_ascii_punctuation() && c != '"' && c != '\'') {
+        } else if suffix
+            .starts_with(|c: char| c.is_ascii_punctuation() && c != '"' && c != '\'' && c != '#')
+        {
             Some(format!("{display}{suffix}"))
         } else {
             Some(format!("{display} {suffix}"))
